@@ -226,7 +226,7 @@ func solveAll(e *Exec, res *HarnessResult, prop string, timeoutS int, meta *Harn
 			g.qs = append(g.qs, And(o.PC, Not(o.Cond)))
 		}
 	}
-	outDir := filepath.Join(verifDir, "out", prop, res.Harness)
+	outDir := filepath.Join(outBase(), prop, res.Harness)
 	for _, key := range order {
 		g := groups[key]
 		q := Or(g.qs...)
